@@ -127,7 +127,7 @@ func (g *gen) hostResult(lbl string) Result {
 func (g *gen) genBadProvide(s int) Op {
 	f := g.baseFn(s)
 	o := &Opts{}
-	nk := 22
+	nk := 24
 	kind := g.pick(nk, "badkind")
 	switch kind {
 	case 0: // name and group together
@@ -219,6 +219,11 @@ func (g *gen) genBadProvide(s int) Op {
 	case 20: // Export with hostile things
 		o.Export = true
 		f.R = []Result{g.hostResult("hr4")}
+	case 22: // result object with an unexported field that carries a dig tag
+		f.R = []Result{{Host: g.pickStr([]string{"HOutUnexpGroup", "HOutUnexpName", "HOutUnexpFlatten", "HOutUnexp"}, "unexpr")}}
+		f.P = nil
+	case 23: // parameter object with an unexported field that carries a dig tag
+		f.P = []Param{{Host: g.pickStr([]string{"HInUnexpGroup", "HInUnexpOpt", "HInUnexpName", "HInUnexp", "HIgnoreUnexp"}, "unexpp")}}
 	default: // As on a result object / on several results
 		f.R = []Result{{T: "T0"}, {IsObj: true, Obj: []Result{{T: "T5"}}}}
 		o.As = []string{"I0"}
